@@ -5,6 +5,7 @@ package vh
 import (
 	"encoding/json"
 	"fmt"
+	"strings"
 	"sync"
 	"time"
 
@@ -48,6 +49,11 @@ func traceStrings(tr []vsched.Step) []string {
 }
 
 func (spec *DFSSpec) judge(s *vsched.Sched) (string, string) {
+	if s.Panic != nil && strings.HasPrefix(fmt.Sprint(s.Panic), "vsched: unsynchronised") {
+		// exclusive-use tracking (vsched.TouchY): two statements touching one unprotected object
+		// were ready to run at the same moment
+		return spec.Name + "/data-race", fmt.Sprintf("%v\n%s", s.Panic, trimStack(s.PanicStack))
+	}
 	if s.Panic != nil && !spec.AllowPanic {
 		return spec.Name + "/panic", fmt.Sprintf("panic: %v\n%s", s.Panic, trimStack(s.PanicStack))
 	}
